@@ -262,6 +262,9 @@ impl<'a> Attributes<'a> {
     #[verifier::external_body]
     pub fn flatten(self) -> (r: FlatAttributes<'a>)
         ensures r.items().len() <= self.items().len(),
+            // (Result is an iterator over its Ok payload: when every item is Ok the payloads come out one for one, in order)
+            (forall|i: int| 0 <= i < self.items().len() ==> (#[trigger] self.items()[i]) is Ok) ==>
+                r.items().len() == self.items().len() && forall|i: int| 0 <= i < self.items().len() ==> #[trigger] r.items()[i] == self.items()[i]->Ok_0,
     { unimplemented!() }
 }
 // TRUSTED: stand-in for `Flatten<Attributes>`
@@ -635,6 +638,17 @@ pub broadcast proof fn lemma_bytes_eq_array<const N: usize>(a: &[u8], b: &[u8; N
     ensures #[trigger] <[u8] as PartialEqSpec<[u8; N]>>::eq_spec(a, b) <==> a@ == b@
 {
     if <[u8] as PartialEqSpec<[u8; N]>>::eq_spec(a, b) { assert(a@ =~= b@); }
+}
+/// (proved) `slice == slice` / `slice != slice` on bytes is (in)equality of the byte sequences; `&a[..]` is the whole array
+pub broadcast proof fn lemma_bytes_eq_slice(a: &[u8], b: &[u8])
+    ensures #[trigger] <[u8] as PartialEqSpec<[u8]>>::eq_spec(a, b) <==> a@ == b@
+{
+    if <[u8] as PartialEqSpec<[u8]>>::eq_spec(a, b) { assert(a@ =~= b@); }
+}
+pub broadcast proof fn lemma_subrange_full(s: Seq<u8>)
+    ensures #[trigger] s.subrange(0, s.len() as int) == s
+{
+    assert(s.subrange(0, s.len() as int) =~= s);
 }
 proof fn lemma_names_distinct()
     ensures
@@ -2353,6 +2367,48 @@ pub open spec fn tb_plain(ev: Seq<Ev>) -> bool {
         && (ev[k].attrs[j].key == k_insertrow() && unesc(ev[k].attrs[j].raw) is Some && xsd_bool(unesc(ev[k].attrs[j].raw)->Some_0) is Some
                 ==> xsd_bool(unesc(ev[k].attrs[j].raw)->Some_0) == Some(ev[k].attrs[j].raw != b_zero()))
 }
+
+//@@ props C17
+/// BRIDGE between the property and the first hypothesis of `tb_plain`: the clause C17.table_entry_is_the_declared_table is proved for the
+/// code's `xml.decoder().decode(raw)`; it carries over to every table part iff decoding the raw bytes of displayName / ref / headerRowCount /
+/// totalsRowCount / tableColumn@name already yields the attribute VALUE.  It does not: `name="P&amp;L"` (demonstration: findings/xlsxparts_3.rs).
+proof fn lemma_table_text_attribute_is_unescaped(a: Attr)
+    requires a.ok, tb_text_key(a.key),
+    ensures dec(a.raw) == unesc(a.raw),
+{
+}
+/// BRIDGE to the second hypothesis of `tb_plain`: the code reads insertRow as `raw != "0"`; the attribute is an xsd:boolean whose
+/// lexical forms are "true" | "false" | "1" | "0".  `insertRow="false"` is read as true (demonstration: findings/xlsxparts_4.rs).
+proof fn lemma_insert_row_is_read_as_xsd_boolean(a: Attr)
+    requires a.ok, a.key == k_insertrow(), unesc(a.raw) is Some, xsd_bool(unesc(a.raw)->Some_0) is Some,
+    ensures xsd_bool(unesc(a.raw)->Some_0) == Some(a.raw != b_zero()),
+{
+}
+//@@ props C10,C17,C01,C16,C06
+/// witness: <table displayName=N ref=R><tableColumns><tableColumn name=C/></tableColumns></table> declares (N, R, defaults, [C])
+proof fn witness_tb_part(ns: Seq<u8>, n_raw: Seq<u8>, n: Seq<char>, r_raw: Seq<u8>, r: Seq<char>, c_raw: Seq<u8>, c: Seq<char>, d: Dimensions)
+    requires is_main_ns(ns), unesc(n_raw) == Some(n), unesc(r_raw) == Some(r), unesc(c_raw) == Some(c), dim_of(vstd::utf8::encode_utf8(r)) == Some(d),
+    ensures ({
+        let ev = seq![
+            ev_tag(EvKind::Start, n_table(), ns, seq![at_ok(k_displayname(), n_raw), at_ok(k_ref(), r_raw)]),
+            ev_tag(EvKind::Start, n_tablecolumns(), ns, Seq::empty()),
+            ev_tag(EvKind::Start, n_tablecolumn(), ns, seq![at_ok(k_name(), c_raw)]),
+            ev_tag(EvKind::End, n_tablecolumn(), ns, Seq::empty()),
+            ev_tag(EvKind::End, n_tablecolumns(), ns, Seq::empty()),
+            ev_tag(EvKind::End, n_table(), ns, Seq::empty())];
+        tb_part(ev).ok && tb_part(ev).meta == (TbMeta { name: n, refc: r, hdr: 1, ins: false, tot: 0 }) && tb_part(ev).cols == seq![c] }),
+{
+    lemma_tbl_names_distinct();
+    let ta = seq![at_ok(k_displayname(), n_raw), at_ok(k_ref(), r_raw)];
+    reveal_with_fuel(tb_fold, 3);
+    assert(tb_fold(ta, 2) == Some(TbMeta { name: n, refc: r, hdr: 1, ins: false, tot: 0 }));
+    let ca = seq![at_ok(k_name(), c_raw)];
+    reveal_with_fuel(ok_key_idx, 2);
+    assert(ok_key_idx(ca, k_name(), 0) == 0);
+    assert(col_entry(ev_tag(EvKind::Start, n_tablecolumn(), ns, ca)) == Some(c));
+    reveal_with_fuel(tb_scan, 8);
+    assert(Seq::<Seq<char>>::empty().push(c) =~= seq![c]);
+}
 // rule R4: `format!(..)` (outside Verus) becomes an opaque string -- used for the part names read_table_metadata computes, about which
 // nothing is claimed here
 #[verifier::external_body] fn verif_opaque_string() -> String { String::new() }
@@ -2363,17 +2419,19 @@ pub open spec fn tb_plain(ev: Seq<Ev>) -> bool {
     ensures
         //# C17.table_attribute_defaults
         r.header_row_count == 1 && r.totals_row_count == 0 && !r.insert_row,
+        r.display_name@ =~= Seq::<char>::empty() && r.ref_cells@ =~= Seq::<char>::empty(),
 //@@ end
 //@@ endimpl
 //@@ impl src/xlsx/mod.rs Xlsx
 #[verifier::loop_isolation(false)]
+#[verifier::allow_complex_invariants]
 //@@ fn src/xlsx/mod.rs Xlsx::read_table_metadata props=C17,C06 entry ret=r r4
 //@@ sig
     requires
         //# C16.sheet_paths_under_xl  (data invariant of `sheets`, established by read_workbook; not a condition on the file)
         sheet_paths_under_xl(old(self).sheets@),
     ensures
-        //# C07.load_tables_frame
+        //# C17.load_tables_frame
         final(self).strings == old(self).strings && final(self).sheets == old(self).sheets && final(self).formats == old(self).formats
             && final(self).is_1904 == old(self).is_1904 && final(self).metadata == old(self).metadata
             && final(self).merged_regions == old(self).merged_regions && final(self).options == old(self).options
@@ -2404,7 +2462,7 @@ a.map_err(|e| -> (x: XlsxError) ensures x == \g<1>(e) { \g<1>(e) })?
 //@@ replace /a\.map_err\((XlsxError::XmlAttr)\)\?/#1of2 (same)
 a.map_err(|e| -> (x: XlsxError) ensures x == \g<1>(e) { \g<1>(e) })?
 //@@ body
-        broadcast use {axiom_cow_str_owned, axiom_str_index_req_to, axiom_str_index_req_from, axiom_str_index_from, axiom_pat_chars_str, axiom_iter_rem, axiom_into_rem, axiom_pat_occurs_char};
+        broadcast use {axiom_cow_str_owned, axiom_str_index_req_to, axiom_str_index_req_from, axiom_str_index_from, axiom_pat_chars_str, axiom_iter_rem, axiom_into_rem, axiom_pat_occurs_char, lemma_bytes_eq_array, lemma_bytes_eq_slice, lemma_subrange_full};
         proof { reveal_strlit("xl/"); }
 //@@ r6 0 iter /&self\.sheets/ `<&Vec<T> as IntoIterator>::into_iter` is `iter()` (vstd specifies the latter)
 self.sheets.iter()
@@ -2427,9 +2485,108 @@ self.sheets.iter()
 //@@ loop 1
                     invariant xml.events() == xml.events(),
                     decreases xml.left(),
+//@@ before /let mut column_names = Vec::new\(\);/
+                let ghost tev = xml.events();
+                let ghost ttot = tb_part(tev);
+                let ghost tgood = ttot.ok && tb_plain(tev) && xml.pos() == 0;
+                let ghost mut tst = tb_init();
+                proof { axiom_bytelits_tbl(); lemma_tbl_names_distinct(); }
+//@@ after /let mut table_meta = InnerTableMetadata::new\(\);/
+                proof { assert(meta_is(table_meta, tst.meta)); assert(strs(column_names@) =~= tst.cols); }
 //@@ loop 4
-                    invariant xml.events() == xml.events(),
+                    invariant_except_break
+                        //# C17.code_follows_the_schema_walk
+                        tgood ==> tb_scan(tev, xml.pos() as int, tst) == ttot,
+                    invariant
+                        xml.events() == tev,
+                        tgood ==> (!tst.root ==> tst.meta == tb_meta0()),
+                        //# C17.table_attributes_so_far
+                        tgood ==> meta_is(table_meta, tst.meta),
+                        //# C17.table_columns_in_order_so_far
+                        tgood ==> strs(column_names@) =~= tst.cols,
+                    ensures
+                        tgood ==> tst.meta == ttot.meta && tst.cols == ttot.cols && tb_ref_ok(tst.meta),
                     decreases xml.left(),
+//@@ before /match xml\.read_event_into\(&mut buf\)/#1of2
+                    let ghost tpos = xml.pos() as int;
+                    let ghost t0 = tst;
+                    let ghost tstp = if tpos < tev.len() { tb_step(tev[tpos], tst) } else { TbStep::Bad };
+                    proof {
+                        if tgood {
+                            assert(tpos < tev.len());
+                            assert(!(tstp is Bad));
+                            if tev[tpos].kind is Start && tev[tpos].local == n_table() {
+                                assert(!t0.root && is_main(tev[tpos]) && tb_fold(tev[tpos].attrs, tev[tpos].attrs.len() as int) is Some);
+                                assert(tstp->Next_0.meta == tb_fold(tev[tpos].attrs, tev[tpos].attrs.len() as int)->Some_0 && tstp->Next_0.cols == t0.cols && tstp->Next_0.root);
+                            } else if tev[tpos].kind is Start && tev[tpos].local == n_tablecolumn() {
+                                assert(t0.root && t0.ctx is Cols && t0.skip == 0 && is_main(tev[tpos]) && col_entry(tev[tpos]) is Some);
+                                assert(tstp->Next_0.cols == t0.cols.push(col_entry(tev[tpos])->Some_0) && tstp->Next_0.meta == t0.meta && tstp->Next_0.root);
+                            } else if tev[tpos].kind is End && tev[tpos].local == n_table() {
+                                assert(tstp is Done && tb_ref_ok(t0.meta));
+                            } else {
+                                assert(tstp is Next && tstp->Next_0.meta == t0.meta && tstp->Next_0.cols == t0.cols && (t0.root ==> tstp->Next_0.root));
+                            }
+                            if tstp is Next { tst = tstp->Next_0; }
+                        }
+                    }
+//@@ before /for a in e\.attributes\(\) \{/#1of2
+                            let ghost at = tev[tpos].attrs;
+                            proof { assert(e.ev() == tev[tpos]); assert(attrs_unique(at)); }
+//@@ loop 5 it
+                                invariant
+                                    attrs_match(it.seq(), at),
+                                    //# C17.table_attributes_from_the_table_element
+                                    tgood ==> tb_fold(at, it.index@ as int) is Some && meta_is(table_meta, tb_fold(at, it.index@ as int)->Some_0),
+//@@ before /match a\.map_err/#1of2
+                                let ghost k = it.index@ as int;
+                                proof {
+                                    assert(0 <= k < at.len());
+                                    assert(a == it.seq()[k]);
+                                    if tgood {
+                                        lemma_tb_fold_prefix(at, k + 1, at.len() as int);
+                                        assert(at[k].ok);
+                                        let m = tb_fold(at, k)->Some_0;
+                                        if tb_text_key(at[k].key) { assert(dec(at[k].raw) == unesc(at[k].raw)); }
+                                        if at[k].key == k_displayname() { assert(tb_fold(at, k + 1) == Some(TbMeta { name: unesc(at[k].raw)->Some_0, ..m })); }
+                                        else if at[k].key == k_ref() { assert(tb_fold(at, k + 1) == Some(TbMeta { refc: unesc(at[k].raw)->Some_0, ..m })); }
+                                        else if at[k].key == k_hdrcount() { assert(tb_fold(at, k + 1) == Some(TbMeta { hdr: xsd_u32(unesc(at[k].raw)->Some_0)->Some_0, ..m })); }
+                                        else if at[k].key == k_insertrow() {
+                                            assert(tb_fold(at, k + 1) == Some(TbMeta { ins: xsd_bool(unesc(at[k].raw)->Some_0)->Some_0, ..m }));
+                                            assert(xsd_bool(unesc(at[k].raw)->Some_0) == Some(at[k].raw != b_zero()));
+                                        }
+                                        else if at[k].key == k_totcount() { assert(tb_fold(at, k + 1) == Some(TbMeta { tot: xsd_u32(unesc(at[k].raw)->Some_0)->Some_0, ..m })); }
+                                        else { assert(tb_fold(at, k + 1) == Some(m)); }
+                                    }
+                                }
+//@@ before /for a in e\.attributes\(\)\.flatten\(\)/
+                            let ghost cat = tev[tpos].attrs;
+                            let ghost cols0 = strs(column_names@);
+                            let ghost kx = ok_key_idx(cat, k_name(), 0);
+                            proof {
+                                assert(e.ev() == tev[tpos]); assert(attrs_unique(cat));
+                                lemma_ok_key_idx_props(cat, k_name(), 0);
+                                if tgood { assert(all_ok(cat) && kx < cat.len() && unesc(cat[kx].raw) is Some); }
+                            }
+//@@ loop 6 it
+                                invariant
+                                    tgood ==> it.seq().len() == cat.len() && forall|i: int| 0 <= i < cat.len() ==> (#[trigger] it.seq()[i]).is(cat[i]),
+                                    //# C17.column_caption_from_the_name_attribute
+                                    tgood ==> strs(column_names@) =~= (if it.index@ > kx { cols0.push(unesc(cat[kx].raw)->Some_0) } else { cols0 }),
+//@@ before /if let Attribute/
+                                let ghost i = it.index@ as int;
+                                proof {
+                                    if tgood {
+                                        assert(0 <= i < cat.len());
+                                        assert(a == it.seq()[i]);
+                                        assert(a.is(cat[i]));
+                                        assert(cat[i].ok && cat[kx].ok);
+                                        if cat[i].key == k_name() {
+                                            if i < kx { assert(false); }
+                                            if kx < i { assert(cat[kx].key != cat[i].key); assert(false); }
+                                            assert(dec(cat[i].raw) == unesc(cat[i].raw));
+                                        }
+                                    }
+                                }
 //@@ before /let last_folder_index = /
             proof {
                 assert(is_prefix("xl/"@, sheet_path@));
@@ -2446,6 +2603,14 @@ self.sheets.iter()
                 proof {
                     //# C17.table_data_range_minus_header_and_totals_rows
                     assert(dims.start.0 == d0.start.0 + hdr && dims.start.1 == d0.start.1 && dims.end.0 == d0.end.0 - tot - ins && dims.end.1 == d0.end.1);
+                    //# C17.table_entry_is_the_declared_table
+                    assert(tgood ==> table_meta.display_name@ == ttot.meta.name && strs(column_names@) == ttot.cols
+                        && Some(d0) == dim_of(vstd::utf8::encode_utf8(ttot.meta.refc)) && hdr == ttot.meta.hdr && tot == ttot.meta.tot && (ins == 1 <==> ttot.meta.ins));
+                }
+//@@ after /new_tables\.push\(\([^;]*;/
+                proof {
+                    //# C17.table_attributed_to_the_sheet_being_scanned
+                    assert(new_tables@.last().1@ == sheet_name@);
                 }
 //@@ end
 //@@ endimpl
